@@ -33,6 +33,8 @@ type CKKSCase struct {
 	Merges   []Merge    `json:"merges"`
 	Merges2  []Merge    `json:"merges2"`
 	Getter   int        `json:"getter"`
+	GetMode  int        `json:"getMode"`        // GetShare output: 0 in place (own share), 1 a fresh share, 2 a re-used share with earlier content
+	Dirty    bool       `json:"dirtyReceivers"` // every receiver holds earlier content
 	Shallow  bool       `json:"shallow"`
 
 	Mode      string `json:"mode,omitempty"` // "refresh" | "transform"
@@ -208,6 +210,7 @@ func genCKKSCommon(t *rapid.T, transform bool) CKKSCase {
 	c.Pattern = []string{"uniform", "zero", "one", "onehot", "uniform"}[rapid.IntRange(0, 4).Draw(t, "pattern")]
 	c.Merges = genMerges(t, c.Parties)
 	c.Shallow = rapid.Bool().Draw(t, "shallow")
+	c.Dirty = rapid.Bool().Draw(t, "dirty")
 	c.Batched = true
 	return c
 }
@@ -237,6 +240,7 @@ func genCKKSShares(t *rapid.T) CKKSCase {
 	c := genCKKSCommon(t, false)
 	c.Merges2 = genMerges(t, c.Parties)
 	c.Getter = rapid.IntRange(0, c.Parties).Draw(t, "getter")
+	c.GetMode = rapid.IntRange(0, 2).Draw(t, "getMode")
 	return c
 }
 
@@ -640,7 +644,7 @@ func ciOneSlot(c CKKSCase, rec *h.Rec, err error) error {
 }
 
 func runCKKSSharesBody(c CKKSCase, rec *h.Rec) error {
-	if !validMerges(c.Merges2, c.Parties) || c.Getter < 0 || c.Getter > c.Parties || !c.Batched {
+	if !validMerges(c.Merges2, c.Parties) || c.Getter < 0 || c.Getter > c.Parties || !c.Batched || c.GetMode < 0 || c.GetMode > 2 {
 		return nil
 	}
 	x, err := setupCKKS(c, false, rec)
@@ -649,6 +653,10 @@ func runCKKSSharesBody(c CKKSCase, rec *h.Rec) error {
 	}
 	params, n, ct := x.params, c.Parties, x.ct
 	ctOrig := ct.CopyNew()
+	dd := dirtier{on: c.Dirty, rng: h.NewSplitMix(c.Seed ^ 0xd1b54a32d192ed03), rQ: params.RingQ()}
+	if c.Dirty {
+		rec.Class("receivers=earlier-content")
+	}
 	ringE := params.RingQ().AtLevel(c.LevelE)
 	ringO := params.RingQ().AtLevel(c.LevelO)
 
@@ -722,6 +730,8 @@ func runCKKSSharesBody(c CKKSCase, rec *h.Rec) error {
 		p := e2s(i)
 		pub[i] = p.AllocateShare(c.LevelE)
 		sec[i] = mpckks.NewAdditiveShare(params, c.LogSlots)
+		dd.poly(pub[i].Value)
+		dd.bigs(sec[i].Value, x.logBound)
 		if len(sec[i].Value) != x.dslots {
 			return h.Failf("C16:mpckks:NewAdditiveShare:size", "%d values for logSlots=%d, ring %v", len(sec[i].Value), c.LogSlots, params.RingType())
 		}
@@ -741,7 +751,7 @@ func runCKKSSharesBody(c CKKSCase, rec *h.Rec) error {
 			return h.Failf("C16:mpckks:EncToShare:AggregateShares:error", "%v", err)
 		}
 	}
-	agg, err := fold(pub, c.Merges, func() multiparty.KeySwitchShare { return e2s0.AllocateShare(c.LevelE) },
+	agg, err := fold(pub, c.Merges, func() multiparty.KeySwitchShare { a := e2s0.AllocateShare(c.LevelE); dd.poly(a.Value); return a },
 		func(a, b multiparty.KeySwitchShare, o *multiparty.KeySwitchShare) error { return e2s0.AggregateShares(a, b, o) })
 	if err != nil {
 		return h.Failf("C16:mpckks:EncToShare:AggregateShares:error", "%v", err)
@@ -752,10 +762,39 @@ func runCKKSSharesBody(c CKKSCase, rec *h.Rec) error {
 
 	shares := append([]multiparty.AdditiveShareBigint{}, sec...)
 	if c.Getter < n {
-		e2s(c.Getter).GetShare(&sec[c.Getter], agg, ct, &sec[c.Getter])
-		rec.Class("getter=keyholder")
+		g := c.Getter
+		aggSnap := *agg.Value.CopyNew()
+		switch c.GetMode {
+		case 0:
+			e2s(g).GetShare(&sec[g], agg, ct, &sec[g])
+			rec.Class("getter=keyholder,in-place")
+		default:
+			out := mpckks.NewAdditiveShare(params, c.LogSlots)
+			if c.GetMode == 2 {
+				dirtier{on: true, rng: dd.rng}.bigs(out.Value, x.logBound) // a share that was used before
+				rec.Class("getter=keyholder,out-of-place-reused")
+			} else {
+				rec.Class("getter=keyholder,out-of-place-fresh")
+			}
+			own := make([]*big.Int, len(sec[g].Value))
+			for j, v := range sec[g].Value {
+				own[j] = new(big.Int).Set(v)
+			}
+			e2s(g).GetShare(&sec[g], agg, ct, &out)
+			for j, v := range sec[g].Value {
+				if v.Cmp(own[j]) != 0 {
+					return h.Failf("C16:mpckks:EncToShare:GetShare:input-modified", "GetShare into another share modified the caller's own additive share")
+				}
+			}
+			shares[g] = out
+			sec[g] = out
+		}
+		if !agg.Value.Equal(&aggSnap) {
+			return h.Failf("C16:mpckks:EncToShare:GetShare:input-modified", "GetShare modified the aggregated public share")
+		}
 	} else {
 		ext := mpckks.NewAdditiveShare(params, c.LogSlots)
+		dd.bigs(ext.Value, x.logBound)
 		e2s0.GetShare(nil, agg, ct, &ext)
 		shares = append(shares, ext)
 		rec.Class("getter=external")
@@ -836,6 +875,7 @@ func runCKKSSharesBody(c CKKSCase, rec *h.Rec) error {
 	for i := 0; i < n; i++ {
 		p := s2e(i)
 		c0[i] = p.AllocateShare(c.LevelO)
+		dd.poly(c0[i].Value)
 		if err := p.GenShare(x.in.shares[i], crp, ct.MetaData, sec[i], &c0[i]); err != nil {
 			return h.Failf("C16:mpckks:ShareToEnc:GenShare:error", "%v", err)
 		}
@@ -870,7 +910,7 @@ func runCKKSSharesBody(c CKKSCase, rec *h.Rec) error {
 			return h.Failf("C16:mpckks:ShareToEnc:AggregateShares:error", "%v", err)
 		}
 	}
-	agg2, err := fold(c0, c.Merges2, func() multiparty.KeySwitchShare { return s2e0.AllocateShare(c.LevelO) },
+	agg2, err := fold(c0, c.Merges2, func() multiparty.KeySwitchShare { a := s2e0.AllocateShare(c.LevelO); dd.poly(a.Value); return a },
 		func(a, b multiparty.KeySwitchShare, o *multiparty.KeySwitchShare) error { return s2e0.AggregateShares(a, b, o) })
 	if err != nil {
 		return h.Failf("C16:mpckks:ShareToEnc:AggregateShares:error", "%v", err)
@@ -879,9 +919,14 @@ func runCKKSSharesBody(c CKKSCase, rec *h.Rec) error {
 		return h.Failf("C16:mpckks:ShareToEnc:AggregateShares:order-dependent", "aggregate depends on the schedule %v", c.Merges2)
 	}
 	ctRec := ckks.NewCiphertext(params, 1, c.LevelO)
+	dd.poly(ctRec.Value[0], ctRec.Value[1])
+	agg2Snap, crpSnap := *agg2.Value.CopyNew(), *crp.Value.CopyNew()
 	*ctRec.MetaData = *ct.MetaData
 	if err := s2e0.GetEncryption(agg2, crp, ctRec); err != nil {
 		return h.Failf("C16:mpckks:ShareToEnc:GetEncryption:error", "%v", err)
+	}
+	if !agg2.Value.Equal(&agg2Snap) || !crp.Value.Equal(&crpSnap) {
+		return h.Failf("C16:mpckks:ShareToEnc:GetEncryption:input-modified", "GetEncryption modified the aggregated share or the CRP")
 	}
 	if ctRec.Level() != c.LevelO {
 		return h.Failf("C16:mpckks:ShareToEnc:GetEncryption:output-level", "re-encryption at level %d, CRP at level %d", ctRec.Level(), c.LevelO)
